@@ -169,6 +169,68 @@ def _shard(arg):
     return stats
 
 
+def _hostile_shard(arg):
+    """Reference-encoded TLS models with one opaque leaf replaced by a hostile value (vf/gen/hostile.py)."""
+    seed_value, count = arg[0], arg[1]
+    from vf.core import hyp  # pylint: disable=import-outside-toplevel
+    from vf.gen import hostile  # pylint: disable=import-outside-toplevel
+    from vf.props import c06  # pylint: disable=import-outside-toplevel
+    stats = Stats()
+    rng = random.Random(seed_value)
+    by_class = {target.cls.__name__: target for target in targets.class_targets()}
+
+    def case_fn(case, inner):
+        model = c06._strip(case)  # pylint: disable=protected-access
+        kind = model['kind']
+        name = c06.ext_class_name(model, model['side']) if kind == 'extension' else c06.MESSAGE_CLASS[kind]
+        target = by_class.get(name)
+        if target is None:
+            return ()
+        for description, wire in hostile.variants(model, rng):
+            found = _evaluate(inner, target, 'immutable', wire, 'hostile-model', True)
+            inner.classes[name] += 1
+            if not found and inner.labels['hostile-model'] % 400 == 1:
+                inner.sample('hostile-model', {'target': name, 'replaced': description, 'hex': wire.hex()[:160]})
+            # the same message through the containers a peer's bytes arrive in
+            if kind in ('client_hello', 'server_hello', 'certificate', 'certificate_request', 'certificate_status'):
+                variant = by_class.get('TlsHandshakeMessageVariant')
+                if variant is not None:
+                    _evaluate(inner, variant, 'immutable', wire, 'hostile-model:via-variant', True)
+            elif kind == 'extension':
+                vector = by_class.get('TlsExtensionsClient' if model['side'] == 'client' else 'TlsExtensionsServer')
+                if vector is not None:
+                    _evaluate(inner, vector, 'immutable', len(wire).to_bytes(2, 'big') + wire, 'hostile-model:via-vector', True)
+        return ()
+    hyp.explore(c06.strategies().any_case(), case_fn, stats, count, seed_value)
+    # and, so that rare leaves (an SNI host name sits in 1 model of 80) are not left to chance: a fixed harvest of
+    # models, up to six per leaf name, each given every hostile value suited to that leaf
+    index = arg[2] if len(arg) > 2 else 0
+    harvest = {}
+
+    def collect(case, _inner):
+        model = c06._strip(case)  # pylint: disable=protected-access
+        for path in hostile._leaves(model):  # pylint: disable=protected-access
+            bucket = harvest.setdefault(hostile.leaf_name(path), [])
+            if len(bucket) < 6 and model not in bucket:
+                bucket.append(model)
+        return ()
+    hyp.explore(c06.strategies().any_case(), collect, Stats(), 500, 20240931)
+    for name in sorted(harvest)[index::16]:
+        for model in harvest[name]:
+            kind = model['kind']
+            class_name = c06.ext_class_name(model, model['side']) if kind == 'extension' else c06.MESSAGE_CLASS[kind]
+            target = by_class.get(class_name)
+            if target is None:
+                continue
+            for _description, wire in hostile.all_variants(model, name):
+                _evaluate(stats, target, 'immutable', wire, 'hostile-model:leaf-sweep', True)
+                if kind == 'extension':
+                    vector = by_class.get('TlsExtensionsClient' if model['side'] == 'client' else 'TlsExtensionsServer')
+                    if vector is not None:
+                        _evaluate(stats, vector, 'immutable', len(wire).to_bytes(2, 'big') + wire, 'hostile-model:via-vector', True)
+    return stats
+
+
 def run(ctx):
     from vf.gen import registry as _registry  # pylint: disable=import-outside-toplevel
     _registry.warm()
@@ -176,6 +238,8 @@ def run(ctx):
     budget_s = 100 if ctx.quick else 1500
     jobs = [(index, ctx.derive_seed('shard', index), per_target, budget_s) for index in range(N_SHARDS)]
     stats = pool.run_shards(_shard, jobs)
+    stats.merge(pool.run_shards(_hostile_shard, [(ctx.derive_seed('hostile', index), 60 if ctx.quick else 2500, index)
+                                                 for index in range(16)]))
     if not ctx.quick:
         from vf.fuzz import campaign  # pylint: disable=import-outside-toplevel
         campaign.run(ID, ctx.derive_seed, stats, runs=int(os.environ.get('VERIF_ATHERIS_RUNS', '300000')))
